@@ -127,6 +127,8 @@ func walk(m protoreflect.Message, path []*validate.FieldPathElement, out *[]*Vio
 						e.Subscript = &validate.FieldPathElement_StringKey{StringKey: k.String()}
 					case protoreflect.BoolKind:
 						e.Subscript = &validate.FieldPathElement_BoolKey{BoolKey: k.Bool()}
+					case protoreflect.Uint32Kind, protoreflect.Uint64Kind, protoreflect.Fixed32Kind, protoreflect.Fixed64Kind:
+						e.Subscript = &validate.FieldPathElement_UintKey{UintKey: k.Value().Uint()}
 					default:
 						e.Subscript = &validate.FieldPathElement_IntKey{IntKey: k.Value().Int()}
 					}
